@@ -388,3 +388,115 @@ def bind_args(call: ast.Call, fn: Func) -> dict[str, ast.expr]:
         if kw.arg is not None:
             out[kw.arg] = kw.value
     return out
+
+
+# ------------------------------------------------------------------------------------------- parameter influence
+
+
+def names_in(e: ast.AST) -> set[str]:
+    return {n.id for n in ast.walk(e) if isinstance(n, ast.Name)}
+
+
+def result_influences(fn: Func) -> set[str]:
+    """Names (parameters, self) whose value can flow into the function's result (returned / yielded values, incl. the
+    bodies of returned lambdas / nested functions).  Intra-procedural def-use closure; condition-only uses (guards) do
+    not count, calls propagate from all arguments and the receiver to their result."""
+    node = fn.node
+    if isinstance(node, ast.Lambda):
+        return names_in(node.body)
+    defs: dict[str, set[str]] = {}
+
+    def add_def(target: ast.expr, srcs: set[str]) -> None:
+        if isinstance(target, ast.Name):
+            defs.setdefault(target.id, set()).update(srcs)
+        elif isinstance(target, (ast.Tuple, ast.List)):
+            for t in target.elts:
+                add_def(t, srcs)
+        elif isinstance(target, ast.Starred):
+            add_def(target.value, srcs)
+        elif isinstance(target, (ast.Attribute, ast.Subscript)):
+            # a store into an object reachable from a name taints that name
+            base = target
+            while isinstance(base, (ast.Attribute, ast.Subscript)):
+                base = base.value
+            if isinstance(base, ast.Name):
+                defs.setdefault(base.id, set()).update(srcs)
+
+    nested: dict[str, ast.AST] = {}
+    for n in own_nodes(node):
+        if isinstance(n, ast.Assign):
+            for t in n.targets:
+                add_def(t, names_in(n.value))
+        elif isinstance(n, ast.AnnAssign) and n.value is not None:
+            add_def(n.target, names_in(n.value))
+        elif isinstance(n, ast.AugAssign):
+            add_def(n.target, names_in(n.value) | names_in(n.target))
+        elif isinstance(n, ast.NamedExpr):
+            add_def(n.target, names_in(n.value))
+        elif isinstance(n, (ast.For, ast.comprehension)):
+            add_def(n.target, names_in(n.iter))
+        elif isinstance(n, ast.With):
+            for it in n.items:
+                if it.optional_vars is not None:
+                    add_def(it.optional_vars, names_in(it.context_expr))
+    # control dependence: a branch that assigns or returns (not a pure guard that only raises) makes its test a source
+    def branch_effects(stmts: list[ast.stmt]) -> tuple[set[str], bool]:
+        tg: set[str] = set()
+        ret = False
+        for st in stmts:
+            for x in ast.walk(st):
+                if isinstance(x, (ast.FunctionDef, ast.Lambda)):
+                    continue
+                if isinstance(x, ast.Assign):
+                    for t in x.targets:
+                        tg |= {n.id for n in ast.walk(t) if isinstance(n, ast.Name)}
+                elif isinstance(x, (ast.AugAssign, ast.AnnAssign)) and getattr(x, "value", None) is not None:
+                    tg |= {n.id for n in ast.walk(x.target) if isinstance(n, ast.Name)}
+                elif isinstance(x, ast.Return) and x.value is not None:
+                    ret = True
+        return tg, ret
+
+    control_roots: set[str] = set()
+    for n in own_nodes(node):
+        branches: list[list[ast.stmt]] = []
+        srcs: set[str] = set()
+        if isinstance(n, ast.If):
+            branches, srcs = [n.body, n.orelse], names_in(n.test)
+        elif isinstance(n, ast.Match):
+            branches, srcs = [c.body for c in n.cases], names_in(n.subject)
+        elif isinstance(n, ast.IfExp):
+            continue
+        for b in branches:
+            tg, ret = branch_effects(b)
+            for t in tg:
+                defs.setdefault(t, set()).update(srcs)
+            if ret:
+                control_roots |= srcs
+    for n in ast.walk(node):
+        if isinstance(n, (ast.FunctionDef,)) and n is not node:
+            nested[n.name] = n
+    roots: set[str] = set()
+    for n in own_nodes(node):
+        if isinstance(n, ast.Return) and n.value is not None:
+            roots |= names_in(n.value)
+            for sub in ast.walk(n.value):
+                if isinstance(sub, ast.Lambda):
+                    roots |= names_in(sub.body)
+        elif isinstance(n, (ast.Yield, ast.YieldFrom)) and n.value is not None:
+            roots |= names_in(n.value)
+    roots |= control_roots
+    # returned nested function: its free variables flow into the result
+    for r in list(roots):
+        if r in nested:
+            roots |= names_in(nested[r])
+    seen: set[str] = set()
+    work = list(roots)
+    while work:
+        x = work.pop()
+        if x in seen:
+            continue
+        seen.add(x)
+        for s in defs.get(x, ()):
+            if s not in seen:
+                work.append(s)
+    return seen
